@@ -670,6 +670,16 @@ func (e *Exec) intBinop(st *State, x *ssa.BinOp, a, b Val) {
 	case token.SUB:
 		e.setTerm(st, x, fmt.Sprintf("(bvsub %s %s)", a.S, b.S))
 	case token.MUL:
+		if e.abstractMul(x.Type()) {
+			// sound abstraction: multiplication as an uninterpreted function (constant operand second)
+			e.eng.spec.need(e.sc, "umul64")
+			l, r := a.S, b.S
+			if _, isC := x.X.(*ssa.Const); isC {
+				l, r = r, l
+			}
+			e.setTerm(st, x, fmt.Sprintf("(umul64 %s %s)", l, r))
+			break
+		}
 		e.setTerm(st, x, fmt.Sprintf("(bvmul %s %s)", a.S, b.S))
 	case token.QUO:
 		e.check(st, "div", e.srcText(x.Pos()), not(eq(b.S, bvLit(big.NewInt(0), w))), x.Pos())
@@ -1090,4 +1100,25 @@ func (e *Exec) panicInstr(st *State, x *ssa.Panic) []Exit {
 
 func (e *Exec) softExit(st *State, pv string) []Exit {
 	return []Exit{{kind: exitSoft, st: st, pv: pv}}
+}
+
+// abstractMul: does the contract of the function under verification ask for
+// multiplications of this Go type to be abstracted (`abstract_mul int64`)?
+func (e *Exec) abstractMul(t types.Type) bool {
+	fc := e.fc
+	if e.curFn != e.fn {
+		fc = e.eng.contractFor(e.curFn)
+		if fc == nil {
+			fc = e.fc
+		}
+	}
+	if fc == nil {
+		return false
+	}
+	want, ok := fc.Flags["abstract_mul"]
+	if !ok {
+		return false
+	}
+	b, ok := types.Unalias(t).(*types.Basic)
+	return ok && b.Name() == strings.TrimSpace(want)
 }
